@@ -127,9 +127,61 @@ def gen_world(rng):
     return c
 
 
+def subs_map():
+    subs = {p: p.upper() + "-alt-" + str(len(p)) for p in PLAIN}
+    for ct in CTS:
+        subs[ct] = "other plaintext for " + ct
+    for i in range(100):
+        subs["s3cr3t-%d" % i] = "S3CR3T*%d*longer" % (i + 1)
+    subs["471100"] = "918273645"
+    return subs
+
+
+def gen_inherited(rng):
+    """secrets that an object only INHERITS from an imported base, and secret numbers/objects decoded from a secret JSON
+    text, flowing into aggregate built-ins and into environmentVariables"""
+    r = rng
+    base_vals = [("creds", ("obj", [("pw", ("secret", r.choice(PLAIN))), ("n", ("num", "1"))])),
+                 ("doc", ("fromjson", ("secret", '{"pin": 471100, "name": "x"}')))]
+    vals = [("creds", ("obj", [("user", ("str", "bob"))]))]       # a plain sibling merged over the base's object
+    sinks = []
+    for i in range(2 + r.below(4)):
+        src = r.choice([[("name", "creds")], [("name", "creds"), ("name", "pw")], [("name", "doc")], [("name", "doc"), ("name", "pin")]])
+        j = r.below(7)
+        if j == 0:
+            e = ("tojson", ("sym", src))
+        elif j == 1:
+            e = ("join", ("str", "-"), ("arr", [("str", "a"), ("tojson", ("sym", src))]))
+        elif j == 2:
+            e = G.norm_interp([("v=", src), ("", None)])
+        elif j == 3:
+            e = ("tostring", ("sym", src))
+        elif j == 4:
+            e = ("tob64", ("tojson", ("sym", src)))
+        elif j == 5:
+            e = ("obj", [("wrapped", ("sym", src))])
+        else:
+            e = ("sym", src)
+        sinks.append(("k%d" % i, e))
+    envvars = [("PIN", ("sym", [("name", "doc"), ("name", "pin")])), ("PW", ("sym", [("name", "creds"), ("name", "pw")])),
+               ("USER", ("sym", [("name", "creds"), ("name", "user")]))]
+    if sinks:
+        envvars.append(("S0", ("sym", [("name", sinks[0][0])])))
+    vals = vals + sinks + [("environmentVariables", ("obj", envvars)),
+                           ("files", ("obj", [("F", ("sym", [("name", "doc"), ("name", "pin")]))]))]
+    envs = {"base": {"imports": [], "values": base_vals}, "root": {"imports": [("base", True)], "values": vals}}
+    c = G.case_from_graph(envs, "root")
+    c["provs"] = {}
+    c["secrets2"] = subs_map()
+    c["composite"] = False
+    return c
+
+
 def gen(rng, tier):
     n = 5000 if tier == "thorough" else 400
-    return [gen_world(rng.fork("w%d" % i)) for i in range(n)]
+    cases = [gen_world(rng.fork("w%d" % i)) for i in range(n)]
+    cases += [gen_inherited(rng.fork("i%d" % i)) for i in range(n // 5)]
+    return cases
 
 
 def prepare(c):
